@@ -17,6 +17,7 @@ import Chewing.Proofs.LayoutUnreachAll
 import Chewing.Proofs.Bisim
 import Chewing.Proofs.LayoutEditor
 import Chewing.Proofs.ReadingsMini
+import Chewing.Proofs.EditorLinkSyl2
 /-!
 # C14 — Every phonetic layout is sound, and complete for the dictionary's readings
 
@@ -533,5 +534,153 @@ example :
       | .ok (sh', _) => sh'.com.inner.symbols == [.syl 1088] && sh'.syl == clearSyl
       | _ => false) = true := by
   decide +kernel
+
+/-! ## linked (round 2): stage B over whole key histories
+
+`editor_inserts_what_layout_read` is about ONE key in state `EnteringSyllable`.  Here it is lifted to an
+invariant of the editor model (`Model/Editor.lean`) that holds after EVERY history of key events (and of the
+other public operations), in all four states, for the environment `layoutEnv L base` whose layout component is
+the layout model `L` (everything else — dictionary, engines, estimator — arbitrary):
+
+* the layout state is well formed, and
+* every syllable symbol in the pre-edit buffer was handed over by the layout (it is the `Commit` reading or the
+  `Fuzzy` payload of some step of `L` from a well-formed layout state), is well formed (C13) and non-empty.
+
+Proof (`Proofs/EditorLinkSyl.lean`, `Proofs/EditorLinkSyl2.lean`): syllable symbols enter the buffer only in
+`syllableAnswer` (state `EnteringSyllable`; `enteringSyllable_sound`); every arm of `Entering`, `Selecting`,
+`Highlighting`, the auto-commit tail and every other entry point of `Editor` inserts / writes CHARACTER
+symbols only, or removes / keeps symbols (`LinkSyl.NoNewSyl`, arm by arm, for every environment); the layout
+state changes only by `key_press` / `fuzzy_key_press` / `remove_last` / `clear` of the sound layout `L`.
+
+Relation to C01.  C01's invariant has two facts about buffered syllables that are DIFFERENT from this one:
+`SylInv` (Props/C04.lean, `CInv.syl` in Proofs/C01Inv.lean) says that *selections cover syllable symbols only*,
+and `ShInv.word` says that *every buffered syllable has a word in the dictionary* (a fact about the dictionary,
+kept under hypotheses on learning).  Neither says where the syllable came from or that it is a well-formed
+code; `BufferFromLayout` says exactly that, needs no hypothesis on the dictionary operations, and is independent
+of C01 (this file does not import C01). -/
+
+/-- `s` was handed over by layout `L`: it is the `Commit` reading or the `Fuzzy` payload of some step of `L`
+    (plain or fuzzy key press) from a well-formed layout state -/
+def HandedBy (L : Layout) (s : Nat) : Prop :=
+  ∃ c k strat, WellFormed c ∧ HandedOver (layoutStepFor L strat c k) s
+
+/-- invariant: the layout state is well formed and every syllable in the pre-edit buffer was handed over by
+    the layout, is well formed (C13) and non-empty -/
+def BufferFromLayout {D : Type} (L : Layout) (e : Editor D Nat) : Prop :=
+  WellFormed e.shared.syl ∧
+    ∀ s, Sym.syl s ∈ e.shared.com.inner.symbols → HandedBy L s ∧ WellFormed s ∧ s ≠ emptyPattern
+
+theorem handedBy_iff {L : Layout} {s : Nat} : HandedBy L s ↔ LinkSyl.HandedByC L s :=
+  ⟨fun ⟨c, k, strat, hc, h⟩ => ⟨c, k, strat, wellFormed_iff.mp hc, h⟩,
+   fun ⟨c, k, strat, hc, h⟩ => ⟨c, k, strat, wellFormed_iff.mpr hc, h⟩⟩
+
+theorem bufferFromLayout_iff {D : Type} {L : Layout} {e : Editor D Nat} :
+    BufferFromLayout L e ↔ LinkSyl.BufInv L e.shared :=
+  ⟨fun ⟨h1, h2⟩ => ⟨wellFormed_iff.mp h1, fun s hs =>
+      ⟨handedBy_iff.mp (h2 s hs).1, wellFormed_iff.mp (h2 s hs).2.1, (h2 s hs).2.2⟩⟩,
+   fun ⟨h1, h2⟩ => ⟨wellFormed_iff.mpr h1, fun s hs =>
+      ⟨handedBy_iff.mpr (h2 s hs).1, wellFormed_iff.mpr (h2 s hs).2.1, (h2 s hs).2.2⟩⟩⟩
+
+/-- the operations covered besides keys: all of them (`select`, `start_selecting`, `cancel_selecting`, `commit`,
+    `clear`, `ack`, `clear_syllable_editor`, `set_editor_options`, `set_conversion_engine`, `learn_phrase`,
+    `unlearn_phrase`, the four jumps); `set_syllable_editor` must install a well-formed layout state -/
+def OpAllowed : Op Nat → Prop
+  | .setLayout l => WellFormed l
+  | _ => True
+
+/-- **Stage B, every history of public operations.**  `hne`: the dictionary has no word under the empty
+    syllable — for every dictionary value and strategy, because keys change the dictionary (learning). -/
+theorem buffer_syllables_from_layout_ops {D : Type} {L : Layout} (hL : L ∈ finiteLayouts) (base : Env D Nat)
+    (hne : ∀ d strat, (layoutEnv L base).hasPhrase d [emptyPattern] strat = false)
+    (ops : List (Op Nat)) (hops : ∀ op ∈ ops, OpAllowed op) (e e' : Editor D Nat) (h0 : BufferFromLayout L e)
+    (hrun : e.run (layoutEnv L base) ops = .ok e') : BufferFromLayout L e' := by
+  refine bufferFromLayout_iff.mpr
+    (LinkSyl.run_inv (finite_sound hL) base hne ops e e' (fun op ho => ?_) (bufferFromLayout_iff.mp h0) hrun)
+  have := hops op ho
+  cases op <;> first | trivial | exact wellFormed_iff.mp this
+
+/-- **Stage B, every key history.** -/
+theorem buffer_syllables_from_layout {D : Type} {L : Layout} (hL : L ∈ finiteLayouts) (base : Env D Nat)
+    (hne : ∀ d strat, (layoutEnv L base).hasPhrase d [emptyPattern] strat = false)
+    (keys : List KeyEvent) (e e' : Editor D Nat) (h0 : BufferFromLayout L e)
+    (hrun : e.run (layoutEnv L base) (keys.map Op.key) = .ok e') : BufferFromLayout L e' :=
+  bufferFromLayout_iff.mpr
+    (LinkSyl.run_inv (finite_sound hL) base hne _ e e' (LinkSyl.opOK_keys keys) (bufferFromLayout_iff.mp h0) hrun)
+
+/-- a fresh editor (empty pre-edit buffer, well-formed layout state — e.g. the cleared one) satisfies the
+    invariant -/
+theorem bufferFromLayout_fresh {D : Type} (L : Layout) (e : Editor D Nat) (hcom : e.shared.com = {})
+    (hsyl : WellFormed e.shared.syl) : BufferFromLayout L e := by
+  refine ⟨hsyl, fun s hs => ?_⟩
+  rw [hcom] at hs
+  cases hs
+
+/-- from a fresh editor: after every key history every buffered syllable was handed over by the layout, is
+    well formed — so it decodes and re-spells (C13) — and is not the empty syllable -/
+theorem buffer_syllables_from_layout_fresh {D : Type} {L : Layout} (hL : L ∈ finiteLayouts) (base : Env D Nat)
+    (hne : ∀ d strat, (layoutEnv L base).hasPhrase d [emptyPattern] strat = false)
+    (keys : List KeyEvent) (e e' : Editor D Nat) (hcom : e.shared.com = {}) (hsyl : WellFormed e.shared.syl)
+    (hrun : e.run (layoutEnv L base) (keys.map Op.key) = .ok e') :
+    WellFormed e'.shared.syl ∧
+    ∀ s, Sym.syl s ∈ e'.shared.com.inner.symbols →
+      HandedBy L s ∧ WellFormed s ∧ s ≠ emptyPattern ∧ tryFromU16 s = some s ∧ parse (spell s) = .ok s := by
+  obtain ⟨h1, h2⟩ := buffer_syllables_from_layout hL base hne keys e e' (bufferFromLayout_fresh L e hcom hsyl) hrun
+  exact ⟨h1, fun s hs => ⟨(h2 s hs).1, (h2 s hs).2.1, (h2 s hs).2.2, wellFormed_respellable (h2 s hs).2.1⟩⟩
+
+theorem wellFormed_clearSyl : WellFormed clearSyl := wellFormed_iff.mpr comp_clear
+
+/-! ### non-vacuity -/
+
+/-- the words of a dictionary that has one exactly for the shipped readings -/
+def readingsLookup (key : List Nat) : List Phrase :=
+  match key with
+  | [s] => if readingCodes.contains s then [{ text := [19968], freq := 1 }] else []
+  | _ => []
+
+/-- an environment for `buffer_syllables_from_layout`: the dictionary (no state) has a word exactly for the
+    shipped readings -/
+def readingsEnv : Env Unit Nat :=
+  { lookupAll := fun _ key _ => readingsLookup key
+    userLookupAll := fun _ _ _ => []
+    addPhrase := fun d _ _ => some d
+    updatePhrase := fun d _ _ _ _ => d
+    removePhrase := fun d _ _ => d
+    reopenFlush := fun d => d
+    convert := fun _ _ _ => .ok []
+    estimate := fun _ _ _ => .ok 0
+    keyPress := fun c _ => (.error, c)
+    fuzzyKeyPress := fun c _ => (.error, c)
+    removeLast := fun c => c
+    clearSyl := fun c => c
+    sylIsEmpty := fun _ => true
+    read := fun c => c
+    altSyllables := fun _ _ => [] }
+
+theorem readingsLookup_empty : readingsLookup [emptyPattern] = [] := by
+  simp only [readingsLookup, readings_no_empty, Bool.false_eq_true, ↓reduceIte]
+
+/-- its `hne` hypothesis holds … -/
+theorem readingsEnv_no_empty (L : Layout) :
+    ∀ d strat, (layoutEnv L readingsEnv).hasPhrase d [emptyPattern] strat = false := by
+  intro d strat
+  simp only [Env.hasPhrase, layoutEnv, readingsEnv, readingsLookup_empty, List.head?_nil, Option.isSome_none]
+
+/-- … and the key history `1 8 Space` on the Standard layout, from the fresh editor, goes through
+    `Entering → EnteringSyllable → Entering` and really inserts the syllable `ㄅㄚ` -/
+example :
+    (match ({ shared := { syl := clearSyl, dict := () } } : Editor Unit Nat).run (layoutEnv standardL readingsEnv)
+        ([{ index := 1, code := 1, unicode := 49 }, { index := 8, code := 8, unicode := 56 },
+          { index := 48, code := 48, unicode := 32 }].map Op.key) with
+      | .ok e' => e'.shared.com.inner.symbols == [.syl 520] && e'.shared.syl == clearSyl && e'.state == .entering
+      | _ => false) = true := by
+  decide +kernel
+
+/-- so the theorem applies to that history -/
+example (e' : Editor Unit Nat)
+    (h : ({ shared := { syl := clearSyl, dict := () } } : Editor Unit Nat).run (layoutEnv standardL readingsEnv)
+        ([{ index := 1, code := 1, unicode := 49 }, { index := 8, code := 8, unicode := 56 },
+          { index := 48, code := 48, unicode := 32 }].map Op.key) = .ok e') : BufferFromLayout standardL e' :=
+  buffer_syllables_from_layout (by simp [finiteLayouts]) readingsEnv (readingsEnv_no_empty _) _ _ e'
+    (bufferFromLayout_fresh _ _ rfl wellFormed_clearSyl) h
 
 end Chewing.C14
